@@ -98,6 +98,8 @@ func runC03(r *Run, replay *Case) {
 		if replay.Input["stream"] == "operand-history" {
 			c03OperandHistory(r)
 			c03OnceMemberHistory(r)
+			c03OnceHeadForms(r)
+			flushPages(r)
 			return
 		}
 		if replay.Input["stream"] == "pathcond" {
@@ -121,4 +123,7 @@ func runC03(r *Run, replay *Case) {
 	c03TypeHistory(r)
 	c03OperandHistory(r)
 	c03OnceMemberHistory(r)
+	c03OnceHeadForms(r)
+	// the history streams queue page-correspondence cases of their own
+	flushPages(r)
 }
